@@ -82,7 +82,7 @@ def ev_bin(op, l, r, ip=False):
             elif op == 'mul': x *= R
             elif op == 'concat': x //= R
             return x
-        return run(dict(op=op, l=l, r=r, ip=True), f, [R], alias_check=False)
+        return run(dict(op=op, l=l, r=r, ip=True), f, [R, L], alias_check=False)      # L: another reference to the old left operand still reads the old value
     if op == 'hd':
         return run(dict(op=op, l=l, r=r), lambda: L.hd(R), [L, R], render=lambda x: x if isinstance(x, int) else -1)
     return run(dict(op=op, l=l, r=r), lambda: BINOPS[op](L, R), [L, R])
@@ -106,7 +106,10 @@ def ev_un(op, bits, **kw):
     elif op == 'rol': f = lambda: rol(a, kw['k'])
     elif op == 'ror': f = lambda: ror(a, kw['k'])
     elif op == 'split':
-        return run(e, lambda: a.split(kw['k'], kw['be']), [a], render=lambda l: [enc(x) for x in l], alias_check=False)
+        def as_list(l):
+            if not isinstance(l, list): raise TypeError('split() must return a list')
+            return [enc(x) for x in l]
+        return run(e, lambda: a.split(kw['k'], kw['be']), [a], render=as_list, alias_check=False)
     elif op == 'zext':
         c = Bits(a); return run(e, lambda: c.zeroextend(kw['n']), [a], alias_check=False)
     elif op == 'sext':
